@@ -331,7 +331,16 @@ class NamespaceClass(Namespace[symtable.Class]):
             if name in comp.target_names:
                 return Name(id=name, ctx=Load())
 
-        if name in self.globals_used_in_comp:
+        if self.comp_stack:
+            # inside a lambda or a comprehension nested in the class body:
+            # such scopes do not see the class members
+            if name in self.outer_nonlocal_map:
+                outer = self.outer_nonlocal_map[name]
+                return Subscript(
+                    value=outer.nonlocal_dict_expr,
+                    slice=Constant(value=name),
+                    ctx=Load(),
+                )
             return Name(id=name, ctx=Load())
 
         symbol = self.symt.lookup(name)
